@@ -16,6 +16,7 @@ Inductive valexp :=
 | VShl (a b : valexp) | VShr (a b : valexp)
 | VInv (a : valexp)                   (* backend.fieldinverse *)
 | VModP (a : valexp)                  (* a % backend.get_modulus() *)
+| VLin (l : lc)                       (* sum of coeff * (value of variable): the integer a wire evaluates to *)
 | VIte (c : bexp) (a b : valexp)
 | VB2Z (b : bexp)
 with bexp :=
@@ -64,6 +65,7 @@ Fixpoint veval (s : store) (e : valexp) : Z :=
   | VShl a b => Z.shiftl (veval s a) (veval s b) | VShr a b => Z.shiftr (veval s a) (veval s b)
   | VInv a => finv p (veval s a)
   | VModP a => veval s a mod p
+  | VLin l => eval (wval s) l
   | VIte c a b => if beval s c then veval s a else veval s b
   | VB2Z b => if beval s b then 1 else 0
   end
